@@ -143,7 +143,10 @@ _appno = [0]
 def build_app(kind, rec, validator=None, behaviours=None, name=None):
     from spyne import Application
     svc, item = build_service(rec, behaviours)
-    inp, outp = make_protocols(kind, validator)
+    base, _, variant = kind.partition('+')
+    inp, outp = make_protocols(base, validator)
+    if variant == 'list':
+        outp = type(outp)(complex_as=list)        # positional output form of the dict-document protocols
     _appno[0] += 1
     app = Application([svc], TNS, name=name or 'MiniApp', in_protocol=inp, out_protocol=outp)
     app._vf_service = svc
@@ -165,6 +168,7 @@ def _xml_args(args):
 
 def encode_request(kind, method, args):
     """-> dict(method=, path=, qs=, body=, content_type=). args: list of (name, value)."""
+    kind = kind.partition('+')[0]          # output variants ('json+list') share the request form
     from urllib.parse import quote
     if kind in ('soap11', 'soap12'):
         ns = S11 if kind == 'soap11' else S12
@@ -220,6 +224,25 @@ def decode_fault(kind, body):
     """(code, string, detail-ish) or None if the body is not a fault document of
     the output protocol of configuration `kind`."""
     from lxml import etree
+    if kind.endswith('+list'):
+        # positional fault: [faultcode, faultstring, faultactor, detail]
+        try:
+            base = kind[:-5]
+            if base == 'json':
+                d = json.loads(body.decode('utf8'))
+            elif base == 'yaml':
+                import yaml
+                d = yaml.safe_load(body.decode('utf8'))
+            else:
+                import msgpack
+                d = msgpack.unpackb(body, raw=False)
+        except Exception:
+            return None
+        if isinstance(d, (list, tuple)) and len(d) >= 2 and isinstance(d[0], (str, bytes)):
+            code = d[0].decode() if isinstance(d[0], bytes) else d[0]
+            if code.split('.')[0] in ('Client', 'Server') or '.' in code or code.isidentifier():
+                return code, d[1], (d[3] if len(d) > 3 else None)
+        return None
     try:
         if kind in ('soap11', 'soap12', 'xml'):
             root = etree.fromstring(body)
